@@ -79,7 +79,7 @@ def big_vertices(tier):
 def evaluate_complete(case):
     dsw = import_dsw()
     k = case["k"]
-    acc = lib_call(dsw.get_complete_accessor, observed_length=k)
+    acc = lib_call(dsw.get_complete_accessor, _hold=False, observed_length=k)  # edited below: not held for later
     if isinstance(acc, Raised):
         return bad("get_complete_accessor(%d) raised %r" % (k, acc))
     try:
@@ -130,14 +130,14 @@ def evaluate_produced(case):
     labels = ["how:" + how, "k=%d" % k]
     accs = []
     if how == "valid":
-        mask = numpy.array([int(c) for c in case["mask"]], dtype=int)
+        mask = gens.pooled(numpy.array([int(c) for c in case["mask"]], dtype=int), "mask")
         res = lib_call(dsw.connect_valid_graph, observed_length=k, vertices=mask)
         if isinstance(res, Raised):
             return Outcome(True, False, labels + ["raised:" + res.name]) if res.type is ValueError else \
                 bad("connect_valid_graph raised %r" % res, labels)
         accs.append(res)
     elif how == "coding":
-        mask = numpy.array([int(c) for c in case["mask"]], dtype=int)
+        mask = gens.pooled(numpy.array([int(c) for c in case["mask"]], dtype=int), "mask")
         res = lib_call(dsw.connect_coding_graph, observed_length=k, vertices=mask, threshold=case["t"])
         if isinstance(res, Raised):
             return Outcome(True, False, labels + ["raised:" + res.name]) if res.type is ValueError else \
@@ -181,7 +181,7 @@ def evaluate_produced(case):
                 return Outcome(True, False, labels + ["empty"])
             latter_map = dsw.accessor_to_latter_map(acc)
             for _ in range(case["steps"]):
-                res = lib_call(dsw.remove_nasty_arc, accessor=acc, latter_map=latter_map,
+                res = lib_call(dsw.remove_nasty_arc, _twice=False, accessor=acc, latter_map=latter_map,
                                has_insertion=case["ins"], has_deletion=case["dele"])
                 if isinstance(res, Raised):
                     labels.append("nasty_raised")
